@@ -10,18 +10,18 @@ from . import prog_common as PC
 from .c23 import fmt_answer, TIMEOUT_MSG
 
 ANCHORS = ['make_query', 'make_base_node', 'next_solution', 'solve', 'solve_all', 'start_query_timer', 'query_stopped', 'count_rules', 'clear_id']
-WITNESSES = {'all': ['history-abandoned', 'history-exhausted-and-reasked', 'history-timed-out', 'history-real-expiry', 'exhausted-query-reasked-during-probe', 'probe-next_solution', 'probe-solve', 'probe-solve_all', 'has-answers']}
+WITNESSES = {'all': ['history-abandoned', 'history-exhausted-and-reasked', 'history-timed-out', 'history-real-expiry', 'exhausted-query-reasked-during-probe', 'probe-built-before-history', 'probe-next_solution', 'probe-solve', 'probe-solve_all', 'has-answers']}
 OPTS = {'quick': {'selfcheck_mod': 30, 'budget_s': 280}, 'thorough': {'selfcheck_mod': 300, 'budget_s': 3000}}
 STEP_LIMIT = 2_500_000
 NEEDS_HOOKS = True
 BOUNDS = {
     'quick': 'one knowledge base (t1..t6 over the base facts: conjunction, disjunction, recursion, not, cut, arithmetic); histories of 0-2 earlier operations, each = one of 4 queries run by one of: '
              'next_solution x1 then abandoned, next_solution to exhaustion then asked twice more, solve once, solve_all, solve_all with the (modelled) timer firing at its 1st / 3rd observation, '
-             'solve with the timer firing at its 2nd observation, next_solution x1 followed by a real expiry of a timer started with start_query_timer and its cancel_timer; then the probe (each of 4 queries built with make_query after the history, and 4 source texts incl. a zero-arity query built with parse_query) run by next_solution, by solve and by solve_all, and by next_solution with every exhausted query of the history asked again between two answers of the probe; '
+             'solve with the timer firing at its 2nd observation, next_solution x1 followed by a real expiry of a timer started with start_query_timer and its cancel_timer; then the probe (each of 4 queries built with make_query after the history, and 4 source texts incl. a zero-arity query built with parse_query) run by next_solution, by solve and by solve_all, and by next_solution with every exhausted query of the history asked again between two answers of the probe; after 1-operation histories also with the probe and its node built before the history and driven by solve / solve_all afterwards; '
              'the probe\'s answers and output must equal the reference answers of that query',
     'thorough': 'histories of up to 3 operations',
 }
-OUTSIDE = 'resuming an older, unfinished solution node after a newer query was constructed (one query at a time, as documented; asking an exhausted older query again is inside the claim); real elapsed time'
+OUTSIDE = 'resuming an older, unfinished solution node after a newer query was constructed (one query at a time, as documented; asking an exhausted older query again is inside the claim); a query built before another one timed out and then driven by bare next_solution (the stop flag is lowered by the query constructors and by solve / solve_all, not by next_solution: test_query_timer pins that the flag stays up after a timeout); real elapsed time'
 ASSUMPTIONS = ['the timer firing is the modelled event / the cfg(suiron_verif) countdown hook natively',
                'a timer that a driver call leaves running (never cancelled) is allowed to fire at any of the first observations of the next query']
 
@@ -60,6 +60,10 @@ def cases(tier, seed):
             for pr in PROBES + (['next_solution+reask'] if any(op == 'exhaust' for _, op in h) else []):
                 if len(h) == 2 and (qi + len(out)) % 2: continue
                 out.append({'id': 'history %s then probe %s via %s' % ([('%s:%s' % (P.ttext(HQ[q]), op)) for q, op in h], P.ttext(QUERIES[qi]), pr), 'hist': h, 'probe': qi, 'via': pr})
+                if pr in ('solve', 'solve_all') and len(h) == 1:
+                    # the probe (query and base node) is built before the history runs and driven afterwards: the drivers lower the stop flag themselves
+                    out.append({'id': 'probe %s built first, history %s, then driven via %s' % (P.ttext(QUERIES[qi]), [('%s:%s' % (P.ttext(HQ[q]), op)) for q, op in h], pr),
+                                'hist': h, 'probe': qi, 'via': pr, 'prebuilt': True})
     return out
 
 
@@ -80,7 +84,12 @@ def run(drv, case):
     kb = P.build_kb(drv, kbc)
     tags = set()
     exhausted_nodes = []
+    pre = None
     try:
+        if case.get('prebuilt'):
+            pq = drv.query([drv.term(t) for t in probe[1]])
+            pre = (pq, drv.base(pq, kb))
+            tags.add('probe-built-before-history')
         for qi, op in case['hist']:
             hq = HQ[qi]
             q = drv.query([drv.term(t) for t in hq[1]])
@@ -107,12 +116,15 @@ def run(drv, case):
         # a timer that an earlier driver call left running may still fire: during the probe, at any observation
         leaked = m.timer is not None and m.timer.get('armed')
         # the probe, built after the history with the query constructor
-        if 'text' in case:
+        if pre is not None:
+            q, node = pre
+        elif 'text' in case:
             q, res = drv.parse('query', TEXT_PROBES[case['text']])
             if res[0] != 'ok': raise Violation('probe-rejected', '%s: parse_query rejects the probe' % desc)
+            node = drv.base(q, kb)
         else:
             q = drv.query([drv.term(t) for t in probe[1]])
-        node = drv.base(q, kb)
+            node = drv.base(q, kb)
         if leaked:
             drv.stop_at(m.choose(3))
             tags.add('leaked-timer-fires')
